@@ -22,6 +22,7 @@ class WsMock:
         self.rules = {}                        # endpoint -> AuthorizationItem dict (v2)
         self.latched = None                    # guid the host regards as attested
         self.issued = GuidDict()               # guid -> secret (every key ever issued)
+        self.key_bits = 256                    # the key is a hex string of whatever length the host chooses (HMAC-SHA256 takes any)
         self.guid_case = "lower"               # "upper": the host prints guids in upper case (key documents, status documents)
         self.latched_history = []              # guids in latch order
         self.delivered_in_malformed_document = GuidDict()   # guid -> secret sent to the guest inside a key document it may not be able to parse
@@ -67,7 +68,7 @@ class WsMock:
         elif self.guid_case == "short":
             self.short_n = getattr(self, "short_n", 0) + 1
             guid = ["k%d", "%d", "key%d", "g-%d"][self.short_n % 4] % self.short_n      # a key id need not look like a GUID
-        secret = ("%064x" % self.rng.getrandbits(256)) if self.rng else os.urandom(32).hex()
+        secret = ("%0*x" % (self.key_bits // 4, self.rng.getrandbits(self.key_bits))) if self.rng else os.urandom(self.key_bits // 8).hex()
         self.issued[guid] = secret
         return {"authorizationScheme": "Azure-HMAC-SHA256", "guid": guid, "incarnationId": 1, "issued": "2024-01-01T00:00:00Z", "key": secret}
 
@@ -113,11 +114,11 @@ class WsMock:
                 elif how == "odd-length-key":
                     k["key"] = k["key"][:63]
                     self.delivered_in_malformed_document[k["guid"]] = k["key"]
-                elif how in ("empty-guid", "guid-with-path", "dot-guid"):
+                elif how in ("empty-guid", "guid-with-path", "dot-guid", "abs-guid"):
                     # a well-formed document whose key id cannot name a file inside the key directory
                     secret = k["key"]
                     self.delivered_in_malformed_document.pop(k["guid"], None)
-                    k["guid"] = {"empty-guid": "", "dot-guid": "."}.get(how, "../" + k["guid"])
+                    k["guid"] = {"empty-guid": "", "dot-guid": ".", "abs-guid": os.path.join(os.path.dirname(self.key_dir.rstrip("/")), k["guid"]) if getattr(self, "key_dir", None) else "/var/lib/azure-proxy-agent/" + k["guid"]}.get(how, "../" + k["guid"])
                     self.delivered_in_malformed_document["odd-guid-%d" % len(self.delivered_in_malformed_document)] = secret
                 elif how == "wrong-type":
                     k["incarnationId"] = "one"
